@@ -26,6 +26,39 @@ chk("C02", "cal", "model_checking",
     "Trusted: odometer model. Error kind is compared for single-defect inputs only (precedence among simultaneous defects is unspecified).",
     "bounded exhaustive state enumeration of an odometer model, every state compared with the implementation", "DESIGN.md 5/C02")
 
+chk("C03", "table", "exploration",
+    "Bounded-exhaustive enumeration of table zones (every table length 0..64 [300 thorough] x 3 time layouts incl. i64 extremes x type-index patterns, all 3^n index sequences for n<=6 [9] x 7 leap tables x {no rule, fixed, DST rule}) probed at every transition -3..+3, leap records, 0 and i64 extremes; each lookup compared with a linear-scan zone model, DateTime::from_timespec fields with the calendar model, owned zone with borrowed zone.",
+    "Trusted: linear-scan zone model, calendar model. Outside the supported instant range an OutOfRange refusal is accepted in place of the model's answer (I4). Tables longer than the bound and other time layouts are not explored.",
+    "bounded exhaustive enumeration of zone shapes x probe instants against a reference model", "DESIGN.md 5/C03")
+chk("C04", "rule", "exploration",
+    "Every accepted interleaving rule of the alphabet (56 boundary day notations squared x 12 time/offset combinations; thorough: all 1151x1151 notation pairs and the full 9x9x9 time/offset product) probed over 400 consecutive years at S(y)-1,S(y),S(y)+1,E(y)-1,E(y),E(y)+1, UTC and local New Years and period middles, compared with the rule-timeline model (rule days resolved by walking the calendar); extreme years; string path.",
+    "Trusted: rule timeline model, calendar model. Times of day and offsets come from fixed finite alphabets (not all 1.2M seconds). Known finding KF1 (see known_findings.json) is tallied, not alarmed; its witness is re-executed on every run.",
+    "bounded exhaustive enumeration of rules x instants against a reference model", "DESIGN.md 5/C04")
+chk("C05", "find", "model_checking",
+    "Inverse-clock model: for every zone of the enumerated alphabets (tiny world: every <=4-subset of 6 transition times x all 3^n type sequences x 4^3 offsets x {no rule, fixed}; leap-second tiny world; real-scale tables with day/year carries and i32-extreme offsets; rule-only zones; table+rule junctions) and every local reading of its window, the valid results of DateTime::find_n must be exactly the instants at which the model clock shows that reading (candidate-set formulation cross-checked against a brute-force walk of every instant), with literal fields, re-projection and uniqueness.",
+    "Trusted: zone/rule/leap/calendar models. Zones outside the alphabets are not explored. I4/I5/I11 restrict the judged domain (supported instant range; deleted UTC labels; second 60). Known findings KF1, KF2 tallied by input predicate; KF3 was repaired (fix commit) and is no longer suppressed.",
+    "explicit-state enumeration of (zone, local reading) states of an inverse-clock model, every state compared with the implementation", "DESIGN.md 5/C05")
+chk("C06", "find", "model_checking",
+    "Same state space as C05: the reported gaps must be exactly the model's forward jumps T with T+a <= local < T+b (once each, both date-times at T carrying old/new type), the result list must ascend by instant, earliest/latest must be the extremes and unique present iff the list is one valid entry.",
+    "Trusted: as C05; I10 (last table transition without trailing rule creates no gap). Known findings KF1/KF2 tallied by predicate.",
+    "explicit-state enumeration of (zone, local reading) states of an inverse-clock model, every state compared with the implementation", "DESIGN.md 5/C06")
+chk("C11", "rulecons", "exploration",
+    "Complete quotient: all 1151x1151 day-notation pairs x all d = k*86400+{-1,0,1} (|d|<=16d3h) each realised in 2 (quick) / 5 (thorough) different splits into start time, end time and offsets; AlternateTime::new must accept exactly when none of S(y)-E(y), E(y)-S(y+1), S(y)-E(y+1) takes both signs over 409 consecutive model years; window clauses with error kinds.",
+    "Trusted: rule-day model (calendar walk). Weak-inequality reading of 'never change sign' (I2). Error kind compared for single-defect inputs only.",
+    "exhaustive enumeration of the decision quotient against a brute-force definition", "DESIGN.md 5/C11")
+chk("C16", "nanos", "exploration",
+    "Every integer nanosecond count in [-2^28,2^28] (thorough [-2^33,2^33]) and in windows of +-2^20 around k*1e9, the supported-range ends, i64 second ends and i128 extremes; boundary seconds x boundary nanoseconds product; compared with a reference floor split, recombination and the (s,ns) constructors; ns>=1e9 refusals on every validating entry point.",
+    "Trusted: reference split (truncating division corrected by sign). Counts outside the enumerated ranges rely on the linearity of the split.",
+    "bounded exhaustive enumeration of inputs against a reference function", "DESIGN.md 5/C16")
+chk("C17", "find", "model_checking",
+    "Same state space as C05/C06; for every state and every buffer length 0..k+2 a stale-prefilled buffer must receive exactly the first min(n,k) results of the allocating search, count k, exhaustive iff n>=k, untouched tail, equal unique/earliest/latest when exhaustive; failing searches fail alike through both entry points.",
+    "Trusted: the allocating search as reference (itself checked by C05/C06).",
+    "explicit-state enumeration of (zone, local reading, buffer length) against the allocating search", "DESIGN.md 5/C17")
+chk("C18", "fmt", "exploration",
+    "Every offset in [-200000,200000] plus all boundaries (thorough: every i32 offset) and products of dates, times, nanoseconds and offsets rendered with Display into a stack buffer and read back by an independent strict reader (fixed widths, no padding of year, >=2 hour digits, Z iff 0, :SS iff not whole minutes).",
+    "Trusted: the strict reader (self-tested against near-miss strings).",
+    "bounded exhaustive enumeration of inputs with an independent reader as oracle", "DESIGN.md 5/C18")
+
 NOT_YET = "check not built yet in this revision (see DESIGN.md for the planned engine)"
 manifest = {
     "version": 1,
